@@ -17,6 +17,16 @@
 static fiber_signal_t sig;
 static volatile long tokens; /* registered cell: the "publication" the signal announces */
 
+
+/* fiber_t.scratch is shared by several mechanisms ("be sure mechanisms do not conflict"): an
+ * fd wait ended by close() really leaves (void*)-1 == FIBER_SIGNAL_READY_TO_WAKE there.  So
+ * before every wait the harness dirties the waiting fiber's own scratch with that value, by a
+ * store the instrumentation does not see (no event, no scheduling point): a wait that relied
+ * on scratch being NULL on entry would be woken before its context is saved. */
+VH_NOINSTR static void dirty_own_scratch(void) {
+  fiber_manager_get()->current_fiber->scratch = (void*)(intptr_t)-1;
+}
+
 static void do_op(int t, const char* op) {
   switch (op[0]) {
     case 't':
@@ -28,6 +38,7 @@ static void do_op(int t, const char* op) {
           break;
         }
         vr_note("call wait");
+        dirty_own_scratch();
         fiber_signal_wait(&sig);
         vr_note("ret wait");
       }
@@ -59,6 +70,7 @@ VH_NOINSTR int main(int argc, char** argv) {
   int k = atoi(argv[1]);
   vh_parse(argv[2]);
   fiber_manager_init(k);
+  VH_DIRTY(sig);
   fiber_signal_init(&sig);
   vr_reg(&sig.waiter, 8, "waiter");
   vr_reg((void*)&tokens, 8, "tokens");
